@@ -48,8 +48,25 @@ def opStream (l : Line) : Except String String := do
   let vs := (decStream 8 inp).1.map canon
   pure (s!"vals=[{";".intercalate vs}]\tstream{vs.length}")
 
+/-- `benc.deep kind=<open|list|dict> n=<levels>`: `n` containers one inside the other. Up to 20000 levels the input is
+built and run through `unmarshal`; beyond that the answer is the theorem's: never closed ⇒ no value (`dec` needs the
+closing `e`s), closed but deeper than `maxNesting` ⇒ refused (`C19_deeper_refused`). -/
+def opDeep (l : Line) : Except String String := do
+  let n ← l.nat "n"
+  let kind := l.get "kind"
+  if n ≤ 20000 then
+    let inp : Bytes := match kind with
+      | "open" => List.replicate n cL
+      | "list" => List.replicate n cL ++ List.replicate n cE
+      | _ => (List.replicate n [cD, 49, 58, 97]).flatten ++ [cI, 48, cE] ++ List.replicate n cE
+    match unmarshal inp with
+    | .ok v => pure (s!"ok depth={depth v}\tdeep-ok")
+    | .error _ => pure "err\tdeep-err"
+  else pure "err\tdeep-beyond"
+
 def handle (l : Line) : Option (Except String String) :=
   match l.op with
+  | "benc.deep" => some (opDeep l)
   | "benc.dec" => some (opDec l)
   | "benc.rt" => some (opRt l)
   | "benc.stream" => some (opStream l)
